@@ -11,6 +11,9 @@
              | I <nb> (expr <n> stmt*n)*nb <ne> stmt*ne      IF / ELSEIF … / ELSE (ne = 0: no ELSE)
              | W expr <n> stmt*n    WHILE expr DO … END WHILE
              | E<x> <0|1> <nv> lit*nv <n> stmt*n             WHILE [VAR, when 1] @x IN cursor over the rows lit…
+             | T<x>                 DECLARE tx VIEW (c1)   (a table is the variable x holding its number of rows;
+                                    INSERT n rows = A<x> + v<x> i<n>, DELETE all = A<x> i0, DISPOSE VIEW = X<x>,
+                                    (SELECT COUNT(*) FROM tx) = v<x>)
              | Z <n> stmt*n         SOURCE file / EXECUTE 'text' / EXECUTE prepared: the statements run in the current block
              | B | K | Q            BREAK | CONTINUE | EXIT
              | R expr               RETURN expr
@@ -139,6 +142,7 @@ partial def pStmt : P Stmt
             | none => none
           | none => none
         | _, _ => none
+      else if t.front == 'T' then (tagNat 'T' t).map fun x => (.declT x, ts)
       else if t.front == 'X' then (tagNat 'X' t).map fun x => (.dispose x, ts)
       else if t.front == 'Y' then (tagNat 'Y' t).map fun x => (.disposeFn x, ts)
       else if t.front == 'F' then
@@ -186,6 +190,7 @@ def errCode : Err → String
   | .argCount => "10402"
   | .redeclaredFn => "10501"
   | .dupParam => "10503"
+  | .redeclaredTable => "11501"
   | .fuel => "fuel"
 
 def showOutcome : Outcome → String
